@@ -7,6 +7,7 @@ import ast
 from .core import Ctx
 from .effects import twins
 from .erase import body_same
+from .normalize import norm
 
 # async name -> mode
 MODES = {
@@ -48,7 +49,7 @@ def filter_twin_rules(ctx: Ctx, rid_equiv: str, rid_sig: str, rid_reg: str) -> N
             ok, diff = body_same(sf, af)
             ctx.check(ok, f"{an}~{sn}", f"filters:{an}", f"differs from {sn}", f"async {an} is not {sn} under erasure: {diff} - async mode renders something else than sync mode", f"{m.rel}:{af.lineno}", detail={"async": an, "sync": sn, "mode": mode})
         elif mode == "forwarding":
-            body = [s for s in af.body if not (isinstance(s, ast.Expr) and isinstance(s.value, ast.Constant))]
+            body = [s for s in norm(af).body if not (isinstance(s, ast.Expr) and isinstance(s.value, ast.Constant))]  # a local naming the exhausted iterable is inlined
             ok = len(body) == 1 and isinstance(body[0], ast.Return) and isinstance(body[0].value, ast.Call) and ast.unparse(body[0].value.func) == sn
             detail = ""
             if ok:
